@@ -211,7 +211,7 @@ structure St where
   trace : List TItem             -- ghost, newest first
   fstate : Nat → Option Nat := fun _ => Option.none      -- `FSM._state` (none = UNDEF)
   fsmActive : Nat → Bool := fun _ => false                -- `FSM._fsm_event_active`
-  nextEv : Nat → Option Nat := fun _ => Option.none       -- `FSM._next_event` (its new state)
+  nextEv : Nat → Option (Nat × Data) := fun _ => Option.none  -- `FSM._next_event` (its new state and its data)
   timer : Nat → Option EType := fun _ => Option.none      -- `FSM._active_timer` (its timed event)
   timersEnabled : Bool := true                            -- `FSM._timers_enabled` (start() … stop())
   rcur : Nat → Option (Data × Nat) := fun _ => Option.none -- Repeat: the data last queued for the main task
@@ -499,16 +499,24 @@ def fsmData (trigger : String) (st : Nat) (out : Val) : Data :=
 
 inductive WinBody where
   | enter (st : Nat)         -- `self._run_cb('enter', state)`
-  | startTimer (st : Nat)    -- `self._start_timer(…, timed_event)`
+  | startTimer (st : Nat) (duration : Option Val)   -- `self._start_timer(data.get('duration'), timed_event)`
+
+/-- the duration `_start_timer` works with: the `duration` item of the event that caused the transition
+    overrides the state's default (`None` / absent: the default); only "zero delay or not" matters here
+    (numbers; other values – strings with units, INF_TIME – are outside the scenarios) -/
+def effDuration (duration : Option Val) (dflt : Nat) : Nat :=
+  match duration with
+  | some (.atom (.num q _)) => if q ≤ 0 then 0 else 1
+  | _ => dflt
 
 /-- what runs inside the window: the entry action, or `_start_timer` -/
 def winBody (dlv : Dlv) (b : Blk) (d : Nat) (s1 : St) : WinBody → St × Res
   | .enter st => runActs dlv b d s1 (b.enterS.getD st [])
-  | .startTimer st =>
+  | .startTimer st duration =>
     match b.timed.getD st Option.none with
     | Option.none => (s1, .ret .none)
     | some (ev, dur) =>
-      if dur = 0 then dlv s1 d ev []                -- zero delay: `self.event(timed_event)`
+      if effDuration duration dur = 0 then dlv s1 d ev []                -- zero delay: `self.event(timed_event)`
       else if s1.timersEnabled then ({ s1 with timer := upd s1.timer d (some ev) }, .ret .none)
       else (s1, .ret .none)
 
@@ -529,20 +537,20 @@ def chainExit (dlv : Dlv) (b : Blk) (d : Nat) (s : St) (chained : Bool) : St × 
   else (sc, .ret .none)
 
 /-- the `for _ in range(chainlimit)` loop; `chained` = this iteration executes a parked request -/
-def fsmChain (dlv : Dlv) (b : Blk) (d : Nat) (stk0 : List Frame) : Nat → St → Bool → Nat → St × Res
-  | 0, s, _, _ => (s, .exc .circuitError)        -- 'Chained state transition limit reached'
-  | k + 1, s, chained, ns =>
+def fsmChain (dlv : Dlv) (b : Blk) (d : Nat) (stk0 : List Frame) : Nat → St → Bool → Nat → Data → St × Res
+  | 0, s, _, _, _ => (s, .exc .circuitError)        -- 'Chained state transition limit reached'
+  | k + 1, s, chained, ns, data =>
     andThen (chainExit dlv b d s chained) fun s0 =>
     andThen (fsmWindow dlv b d stk0 { s0 with fstate := upd s0.fstate d (some ns) } (.enter ns)) fun s2 =>
     match s2.nextEv d with
-    | some ns' => fsmChain dlv b d stk0 k s2 true ns'
+    | some nx => fsmChain dlv b d stk0 k s2 true nx.1 nx.2     -- `etype, data, newstate = self._next_event`
     | Option.none =>
       match b.timed.getD ns Option.none with
       | Option.none => (s2, .ret .none)
       | some _ =>
-        andThen (fsmWindow dlv b d stk0 s2 (.startTimer ns)) fun s3 =>
+        andThen (fsmWindow dlv b d stk0 s2 (.startTimer ns (data.get? "duration"))) fun s3 =>
         match s3.nextEv d with
-        | some ns' => fsmChain dlv b d stk0 k s3 true ns'
+        | some nx => fsmChain dlv b d stk0 k s3 true nx.1 nx.2
         | Option.none => (s3, .ret .none)
 
 /-- leaving the current state (only when the FSM is initialised): exit callback, on_exit events,
@@ -566,11 +574,12 @@ def fsmFinish (dlv : Dlv) (b : Blk) (d : Nat) (s : St) : St × Res :=
     (s6, .ret (.bool true))
 
 /-- the transition proper (the body of the `try` in `_ctx_event`) -/
-def fsmTransition (dlv : Dlv) (b : Blk) (d : Nat) (stk0 : List Frame) (s : St) (ns : Nat) : St × Res :=
+def fsmTransition (dlv : Dlv) (b : Blk) (d : Nat) (stk0 : List Frame) (s : St) (ns : Nat) (data : Data) :
+    St × Res :=
   andThen (fsmLeave dlv b d s) fun s3 =>
   -- `assert self._next_event is None` (a request left over by a transition that hit the chain limit)
   if (s3.nextEv d).isSome then (s3, .exc .other) else
-  andThen (fsmChain dlv b d stk0 (3 * b.nStates) s3 false ns) fun s4 =>
+  andThen (fsmChain dlv b d stk0 (3 * b.nStates) s3 false ns data) fun s4 =>
   fsmFinish dlv b d s4
 
 def CondVal.eval : CondVal → Data → Bool
@@ -591,18 +600,19 @@ def fsmCond (dlv : Dlv) (b : Blk) (d : Nat) (s : St) (et : EType) (data : Data) 
   | _ => (s, .ret (.bool true))                              -- Goto: no conditions
 
 /-- an accepted event: parked when a transition of this FSM is in progress, executed otherwise -/
-def fsmAccept (dlv : Dlv) (b : Blk) (d : Nat) (stk0 : List Frame) (s : St) (ns : Nat) : St × Res :=
+def fsmAccept (dlv : Dlv) (b : Blk) (d : Nat) (stk0 : List Frame) (s : St) (ns : Nat) (data : Data) :
+    St × Res :=
   if s.fsmActive d then
     -- a request made while a transition is in progress (only possible through the window)
     match s.nextEv d with
     | some _ => (s, .exc .circuitError)          -- 'Forbidden event multiplication'
-    | Option.none => ({ s with nextEv := upd s.nextEv d (some ns) }, .ret (.bool true))
+    | Option.none => ({ s with nextEv := upd s.nextEv d (some (ns, data)) }, .ret (.bool true))
   else
-    let p := fsmTransition dlv b d stk0 { s with fsmActive := upd s.fsmActive d true } ns
+    let p := fsmTransition dlv b d stk0 { s with fsmActive := upd s.fsmActive d true } ns data
     -- finally:
     ({ p.1 with fsmActive := upd p.1.fsmActive d false }, p.2)
 
-/-- `FSM._event` / `_ctx_event` (the `duration` item is not modelled) -/
+/-- `FSM._event` / `_ctx_event` -/
 def fsmEvent (dlv : Dlv) (b : Blk) (d : Nat) (stk0 : List Frame) (s : St) (et : EType) (data : Data) :
     St × Res :=
   match fsmTarget b (s.fstate d) et with
@@ -617,7 +627,7 @@ def fsmEvent (dlv : Dlv) (b : Blk) (d : Nat) (stk0 : List Frame) (s : St) (et : 
     match p.2 with
     | .exc x => (p.1, .exc x)
     | .ret v =>
-      if v.truthy then fsmAccept dlv b d stk0 p.1 ns
+      if v.truthy then fsmAccept dlv b d stk0 p.1 ns data
       else (p.1, .ret (.bool false))           -- 'condition not satisfied': the event is rejected
 
 /-! ### `Repeat._event` and the re-sending main task (edzed/blocklib/sblocks1.py)
